@@ -9,18 +9,34 @@ CONTRACT_MODULES = [
     'contracts.info',
 ]
 
+CFG = 'cfgparser.ZConfigParser.'
+CFG_ALL = [CFG + n for n in ('__init__', '_normalize_case', 'error', 'nextline', 'replace', 'handle_key_value',
+                             'handle_directive', 'handle_define', 'handle_import', 'handle_include',
+                             'start_section', 'end_section', 'parse')]
+INFO_MATCH = ['info.SectionInfo.isAllowedName', 'info.SectionInfo.allowUnnamed', 'info.BaseInfo.ismulti',
+              'info.BaseInfo.issection', 'info.SectionInfo.issection', 'info.BaseInfo.isabstract',
+              'info.SectionType.isabstract', 'info.AbstractType.isabstract',
+              'info.SectionType.getsectioninfo', 'info.SectionType.gettype', 'info.AbstractType.getsubtype',
+              'info.AbstractType.hassubtype', 'info.SectionType.__len__', 'info.SectionType.__getitem__',
+              'info.ValueInfo.__init__', 'info.ValueInfo.convert']
+
 PROPS = {
-    'C03': {
-        'functions': ['cfgparser.ZConfigParser.__init__', 'cfgparser.ZConfigParser._normalize_case',
-                      'cfgparser.ZConfigParser.error', 'cfgparser.ZConfigParser.nextline',
-                      'cfgparser.ZConfigParser.replace', 'cfgparser.ZConfigParser.handle_key_value',
-                      'cfgparser.ZConfigParser.handle_directive', 'cfgparser.ZConfigParser.handle_define',
-                      'cfgparser.ZConfigParser.handle_import', 'cfgparser.ZConfigParser.handle_include',
-                      'cfgparser.ZConfigParser.start_section', 'cfgparser.ZConfigParser.end_section',
-                      'cfgparser.ZConfigParser.parse'],
-        'rx': ['rx:cfgparser._keyvalue_rx', 'rx:cfgparser._section_start_rx'],
-        'standin': True,
-    },
+    'C01': {'functions': INFO_MATCH, 'standin': True},
+    'C02': {'functions': ['info.ValueInfo.convert'], 'standin': True},
+    'C03': {'functions': CFG_ALL,
+            'rx': ['rx:cfgparser._keyvalue_rx', 'rx:cfgparser._section_start_rx'], 'standin': True},
+    'C04': {'functions': ['substitution._split', 'substitution.substitute', 'substitution.isname'],
+            'rx': ['rx:substitution._name_re'], 'standin': True},
+    'C05': {'functions': [CFG + '__init__', CFG + 'handle_define', CFG + 'replace', CFG + 'handle_include',
+                          CFG + 'handle_directive', 'substitution.substitute'],
+            'rx': ['rx:substitution._name_re'], 'standin': True},
+    'C06': {'functions': [CFG + '__init__', CFG + 'parse', CFG + 'handle_include', CFG + 'end_section'],
+            'standin': True},
+    'C07': {'functions': CFG_ALL + ['substitution.substitute', 'substitution._split', 'info.ValueInfo.convert'],
+            'standin': True},
+    'C08': {'functions': [CFG + n for n in ('error', 'replace', 'handle_key_value', 'handle_define',
+                                            'start_section', 'end_section', 'nextline')]
+            + ['info.ValueInfo.__init__', 'info.ValueInfo.convert'], 'standin': True},
     'C09': {
         'functions': ['datatypes.RegularExpressionConversion.__call__', 'datatypes.BasicKeyConversion.__call__',
                       'datatypes.asBoolean', 'datatypes.integer', 'datatypes.RangeCheckedConversion.__call__',
@@ -30,11 +46,20 @@ PROPS = {
         'bind': ['bind:datatypes'],
         'standin': True,
     },
-    'C04': {
-        'functions': ['substitution._split', 'substitution.substitute', 'substitution.isname'],
-        'rx': ['rx:substitution._name_re'],
-        'standin': True,
-    },
+    'C10': {'functions': [], 'standin': True},
+    'C11': {'functions': [], 'standin': True},
+    'C12': {'functions': ['info.SectionType.getsectioninfo', 'info.AbstractType.getsubtype',
+                          'info.AbstractType.hassubtype', 'info.AbstractType.isabstract',
+                          'info.SectionType.isabstract', 'info.SectionType.gettype'], 'standin': True},
+    'C13': {'functions': [], 'standin': True},
+    'C14': {'functions': [], 'standin': True},
+    'C15': {'functions': [CFG + n for n in ('_normalize_case', 'nextline', 'start_section', 'end_section',
+                                            'parse', 'handle_define')], 'standin': True},
+    'C16': {'functions': [], 'standin': True},
+    'C17': {'functions': [], 'standin': True},
+    'C18': {'functions': [], 'standin': True},
+    'C19': {'functions': [], 'standin': True},
+    'C20': {'functions': [], 'standin': True},
 }
 
 
